@@ -160,7 +160,13 @@ class Atom(BodyFormula):
             assert(step in range(0, ctx.horizon + 1))
             sym = _clingo.Function(self.__name, self.__arguments + [_clingo.Number(step)], self.__positive)
             sym_atom = ctx.symbols[sym]
-            data.literal = sym_atom.literal if sym_atom is not None else ctx.false_literal
+            if sym_atom is None:
+                data.literal = ctx.false_literal
+            elif sym_atom.literal == 0:
+                # known to the grounder but without a program atom yet
+                data.literal = ctx.backend.add_atom(sym)
+            else:
+                data.literal = sym_atom.literal
 
 class NumericLiteral(BodyFormula):
     """
